@@ -18,6 +18,7 @@ import (
 	"testing"
 
 	"github.com/aergoio/aergo/v2/internal/enc/proto"
+	"github.com/libp2p/go-libp2p/core/crypto"
 	"github.com/willf/bloom"
 )
 
@@ -523,6 +524,40 @@ func TestVerifCodecEngine(t *testing.T) {
 			o["evaluations"] = total
 			o["mismatches"] = bad
 			o["want"] = want
+		case "HM": // header mutators after the identifier was asked for once: is the cached Hash field stale afterwards?
+			priv, _, _ := crypto.GenerateKeyPair(crypto.Secp256k1, 256)
+			muts := []struct {
+				name string
+				f    func(b *Block)
+			}{
+				{"SetConfirms", func(b *Block) { b.SetConfirms(b.Confirms() + 1) }},
+				{"Sign", func(b *Block) { b.Sign(priv) }},
+				{"setPubKey", func(b *Block) { b.setPubKey(priv.GetPublic()) }},
+				{"SetBlocksRootHash", func(b *Block) { b.SetBlocksRootHash(append([]byte{0x5a}, b.Header.BlocksRootHash...)) }},
+				{"SetChainID", func(b *Block) { b.SetChainID(append([]byte{9, 0, 0, 0}, b.Header.ChainID...)) }},
+			}
+			res := map[string]interface{}{}
+			for _, early := range []bool{false, true} {
+				for _, m := range muts {
+					b := &Block{Header: c.H.header()}
+					if early {
+						b.BlockHash() // e.g. a log line asking for block.ID() before the header is finished
+					}
+					m.f(b)
+					key := m.name
+					if early {
+						key += "_after_early_id"
+					}
+					raw, _ := proto.Encode(b)
+					var back Block
+					proto.Decode(raw, &back)
+					res[key] = map[string]bool{
+						"id_is_hash_of_final_header":    bytes.Equal(b.BlockHash(), b.calculateBlockHash()),
+						"received_id_is_hash_of_header": bytes.Equal(back.BlockHash(), back.calculateBlockHash()),
+					}
+				}
+			}
+			o["mutators"] = res
 		case "MC": // MakeChainId / DecodeChainIdVersion / ChainIdEqualWithoutVersion
 			raw := unhex(c.Raw)
 			o["decode_ver"] = DecodeChainIdVersion(raw)
